@@ -78,6 +78,8 @@ var c20Snips = []struct {
 	{"strfmt", "strfmt(fmtd, \"%v-%v\", 1, \"a\")\n", false},
 	{"loop", "for i = 0; i < 3; i = i + 1 {\n  add_key(cnt, i)\n}\n", false},
 	{"use", "use(\"lib.p\")\n", false},
+	// a script that simply runs for a long time (tens of thousands of statements)
+	{"long_loop", "cnt2 = 0\nfor i = 0; i < 9000; i = i + 1 {\n  cnt2 = i\n  if i % 1000 == 0 {\n    add_key(milestone, i)\n  }\n}\nadd_key(after_long_loop, cnt2)\n", false},
 	// literals that span lines: their value contains the file's own line ends
 	{"multiline_literal", "add_key(ml, \"\"\"line one\nline two\n\"\"\")\nadd_key(ml2, '''t1\n  t2''')\n", false},
 	// keys whose names collide with the point's own attributes
